@@ -14,6 +14,8 @@ import (
 	"strconv"
 	"strings"
 
+	"github.com/rs/zerolog"
+
 	"github.com/quay/claircore"
 	"github.com/quay/claircore/aws"
 	"github.com/quay/claircore/verifharness/internal/extract"
@@ -63,6 +65,7 @@ func Run(cfg hx.Config) error {
 		return err
 	}
 	defer r.Close()
+	zerolog.SetGlobalLevel(zerolog.Disabled)
 	r.Rule = "protocol lines: osrelease.Parse, every distribution scanner (fixture images and mutated os-release/lsb-release/issue files), the Distribution each updater stamps (real factories and parsers against an in-process world), Filter/Query of every matcher, buildGetQuery evaluated on a stored row, the matcher controller's verdict, the OSV repository; non-trivial = a distribution was found / the filter accepted / the row joined. Oracle cases: one per (ecosystem, release, package): vulnerable reported, fixed not reported, other releases' advisories not reported."
 	fx, err := extract.LoadJoinFixtures(repoPath())
 	if err != nil {
@@ -80,6 +83,7 @@ func Run(cfg hx.Config) error {
 	h.sectionFilterJoin()
 	h.sectionPipeline()
 	h.sectionRhel()
+	h.sectionFull()
 	h.sectionKnown()
 	return nil
 }
